@@ -49,6 +49,9 @@ Proof. reflexivity. Qed.
    ID of MaxInt64 is accepted and the next generated ID is 2^63 - still unique and a user ID, `few_rows` accounts for it *)
 Lemma explicit_ids_bounded_by_validation : c04_max_record_id = 9223372036854775807.
 Proof. reflexivity. Qed.
+(* validateObjectIDs checks every RecordID field of a document argument, the plain (AddField) ones too (F46, f867c6b2a) *)
+Lemma argument_recordid_fields_checked : c04_arg_plain_checked = true.
+Proof. reflexivity. Qed.
 (* appRecordsType.validEvent refuses a singleton create whenever a record - active or not - sits at the singleton's ID *)
 Lemma singleton_slot_guarded : c04_singleton_slot_guard = true.
 Proof. reflexivity. Qed.
@@ -204,21 +207,25 @@ Proof. exact (recovery_dominates_few_proved _ _). Qed.
    `consistent_substitution` (Proofs.v): one map m, the identity on storage IDs, sends every declared raw ID to a
    storage ID; every ID, parent and reference field of the argument rows, creates and updates is rewritten by m;
    the reported pairs are exactly (raw, m raw) for the declared non-singleton rows; no raw ID remains.
-   One hypothesis while finding F46 is open: `arg_fields_closed` - every RecordID field of the argument rows, the plain
-   (AddField) ones included, holds 0, a storage ID or the raw ID of an argument row.  Validation guarantees it for the
-   reference fields (AddRefField) only; once validateObjectIDs checks every RecordID field (translator flag
-   c04_arg_plain_checked) the left disjunct holds and nothing is asked. *)
+   The argument rows of the model are the rows of a DOCUMENT argument (ODoc tree, flattened): only documents are
+   regenerated, and for them validation now checks every RecordID field - reference fields and plain (AddField)
+   ones (F46) - so nothing is asked about the argument's fields.  An argument that is a plain Object has no IDs, is
+   never regenerated and is not part of the model (e_arg = []): its RecordID fields are stored exactly as sent,
+   raw values included - they are opaque parameters of the command, not references of the event. *)
 Theorem substitution_consistent :
   forall g ev g' ev' rep,
   valid ev = true -> Forall single_ok (e_creates ev) -> c04_first_user_id <= g ->
   room 0 g (e_arg ev ++ e_creates ev) ->
-  c04_arg_plain_checked = true \/ arg_fields_closed ev ->
   regenerate g ev = (g', ev', rep) ->
   consistent_substitution ev ev' rep.
-Proof. intros g ev g' ev' rep Hv Hs Hg Hr Hc. exact (substitution_proved _ _ g ev g' ev' rep Hv Hs Hg Hr (or_introl plans_shared) Hc). Qed.
+Proof.
+  intros g ev g' ev' rep Hv Hs Hg Hr.
+  exact (substitution_proved _ _ g ev g' ev' rep Hv Hs Hg Hr (or_introl plans_shared) (or_introl argument_recordid_fields_checked)).
+Qed.
 
-(* F46: without that check a plain RecordID field of an argument row that holds a raw ID declared by a CUD row of the
-   same event (or by nobody) is silently overwritten with 0 - the reference is lost, not substituted *)
+(* the old shape (before F46): while validation looked at the argument's reference fields only, a plain RecordID field
+   of an argument row that held a raw ID declared by a CUD row of the same event (or by nobody) was silently
+   overwritten with 0 - the reference was lost, not substituted.  (With the check in the source the premise is absurd.) *)
 Theorem substitution_refuted_for_plain_argument_fields :
   c04_arg_plain_checked = false ->
   exists g ev g' ev' rep, valid ev = true /\ c04_first_user_id <= g /\ room 0 g (e_arg ev ++ e_creates ev)
@@ -246,12 +253,11 @@ Qed.
    (`agrees`), `satisfies` holds for the reasons the theorems above give. *)
 Theorem model_traces_satisfy_the_oracle :
   forall h, bounded h -> singles_ok h -> explicit_apart h ->
-  c04_sync_prepass = true \/ explicit_free h ->
-  c04_arg_plain_checked = true \/ args_closed h ->
   satisfies (model_trace st_init h) = true.
 Proof.
-  intros h HB HS HX HP HC.
-  exact (model_satisfies_proved _ _ h HB HS (or_introl arg_pass_syncs) (or_introl plans_shared) HX HP singleton_slot_guarded HC).
+  intros h HB HS HX.
+  exact (model_satisfies_proved _ _ h HB HS (or_introl arg_pass_syncs) (or_introl plans_shared) HX (or_introl sync_prepass)
+           singleton_slot_guarded (or_introl argument_recordid_fields_checked)).
 Qed.
 
 (* ================= 5. why the repairs were needed (model variants selected by explicit flags) ================= *)
